@@ -17,6 +17,14 @@ type TPart struct {
 	TSNanos bool   // {{__timestamp__ | unixEpochNanos}}
 	Fail    bool   // a call that always fails at execution time
 	Div     string // {{ div 7 (int .label) }}: fails (division by zero) when the label is missing, empty or 0
+	// Repl: {{ regexReplaceAll "re" .label "repl" }} (Literal: regexReplaceAllLiteral, the replacement taken as it is)
+	Repl *ReplPart
+}
+
+// ReplPart is a regular-expression replacement over a label's value.
+type ReplPart struct {
+	Re, Label, With string
+	Literal         bool
 }
 
 // Template is a template restricted to the alphabet.
@@ -39,6 +47,12 @@ func (t Template) Source() string {
 			sb.WriteString(`{{ regexReplaceAll "(" "x" "y" }}`)
 		case p.Div != "":
 			sb.WriteString("{{ div 7 (int ." + p.Div + ") }}")
+		case p.Repl != nil:
+			fn := "regexReplaceAll"
+			if p.Repl.Literal {
+				fn = "regexReplaceAllLiteral"
+			}
+			sb.WriteString("{{ " + fn + " " + strconv.Quote(p.Repl.Re) + " ." + p.Repl.Label + " " + strconv.Quote(p.Repl.With) + " }}")
 		default:
 			sb.WriteString(p.Lit)
 		}
@@ -67,6 +81,13 @@ func (t Template) Expand(e *Entry) (string, bool) {
 				return "", false
 			}
 			sb.WriteString(strconv.Itoa(7 / n))
+		case p.Repl != nil:
+			r := re(p.Repl.Re)
+			if p.Repl.Literal {
+				sb.WriteString(r.ReplaceAllLiteralString(e.Labels[p.Repl.Label], p.Repl.With))
+			} else {
+				sb.WriteString(r.ReplaceAllString(e.Labels[p.Repl.Label], p.Repl.With))
+			}
 		default:
 			sb.WriteString(p.Lit)
 		}
